@@ -6,6 +6,7 @@ import Rare.Proofs.C18RT
 import Rare.Proofs.C18Abbr
 import Rare.Proofs.C18Zone
 import Rare.Proofs.C18Cache
+import Rare.Proofs.C18Hist
 import Rare.Gen.C18
 /-!
 # C18 – Time helpers agree with the calendar and round-trip
@@ -562,6 +563,97 @@ theorem zone_isoweek_example :
     ∧ timeAttrIn tokyo (asc "weekday") 1609428600 = some (asc "5")
     ∧ timeAttr (asc "yearweek") 1609428600 0 = some (asc "2020-53")
     ∧ timeAttr (asc "quarter") 1609428600 0 = some (asc "4") := by
+  decide +kernel
+
+/-! ## One compiled stage over a history of instants (round 4c) -/
+
+/-- What the stage closures of `timeformat`, `duration`, `durationformat` and `timeattr` can remember
+between two evaluations, regenerated from /repo on every run: they use `args` (and `tz`, `format` /
+`attrFunc`) of the enclosing function – each bound once before the closure is built – and no
+package-level variable, and contain NO statement that writes anything declared outside the closure
+(no assignment, `++`, method call such as `.Store(…)`, `go`, send).  This is what lets the model give
+these stages the memory `Unit` (`timeAttrM`, `timeFormatM`); a memo of "the last day seen" or a
+cached offset adds a captured variable and a write, and the lists below change. -/
+theorem gen_stage_stateless :
+    Gen.C18.stageCaptures = [
+      ("timeformat", ["args", "format", "tz"]),
+      ("duration", ["args"]),
+      ("durationformat", ["args"]),
+      ("timeattr", ["args", "attrFunc", "tz"])]
+    ∧ Gen.C18.stageWrites = [("timeformat", []), ("duration", []), ("durationformat", []), ("timeattr", [])] := by
+  decide
+
+/-- `timeattr` is a function of the current instant only.  ONE compiled `{timeattr {0} attr zone}`
+evaluated on any history of arguments (a log) – the zone any transition table – answers every
+argument as a freshly compiled stage would: (1) the answers are the per-argument answers, in order;
+(2) two histories that end in the same argument end in the same answer, whatever came before (the
+instants of a 23-hour spring-forward day, of another year, unparseable text …); (3) the answer to a
+decimal instant `u` (years 0..9999 in the zone) is the calendar field of the local wall clock
+`u + offset in force at u`: weekday / ISO week / ISO year-week / quarter of the local day. -/
+theorem timeattr_history_independent (z : ZoneTab) (attr : Bytes) :
+    (∀ xs, (timeAttrM z attr).run () xs = xs.map (timeAttrStageIn z attr))
+    ∧ (∀ pre pre' a, ((timeAttrM z attr).run () (pre ++ [a])).getLast? = ((timeAttrM z attr).run () (pre' ++ [a])).getLast?)
+    ∧ (∀ (xs : List Bytes) (i : Nat) (u : Int), xs[i]? = some (itoa u) → inInt64 u = true → yearInRange u (z.lookup u).off = true →
+        (attr = asc "weekday" → ((timeAttrM z attr).run () xs)[i]? = some (Out.val (itoa (weekday (z.wall u / 86400)))))
+        ∧ (attr = asc "week" → ((timeAttrM z attr).run () xs)[i]? = some (Out.val (itoa (isoYearWeek (z.wall u / 86400)).2)))
+        ∧ (attr = asc "yearweek" → ((timeAttrM z attr).run () xs)[i]? =
+            some (Out.val (itoa (isoYearWeek (z.wall u / 86400)).1 ++ [45] ++ itoa (isoYearWeek (z.wall u / 86400)).2)))
+        ∧ (attr = asc "quarter" → ((timeAttrM z attr).run () xs)[i]? =
+            some (Out.val (itoa (quarter (civilFromDays (z.wall u / 86400)).m))))) := by
+  refine ⟨fun xs => run_stateless _ _ _, fun pre pre' a => ?_, fun xs i u hi hu hy => ?_⟩
+  · simp only [timeAttrM, run_last]
+  · obtain ⟨hq, hw, hk, hyw⟩ := timeattr_in_zone z u
+    have key : ∀ b, timeAttrIn z attr u = some b → ((timeAttrM z attr).run () xs)[i]? = some (Out.val b) := by
+      intro b hb
+      simp only [timeAttrM, run_getElem?, hi, Option.map_some, timeAttrStageIn_num z attr u hu hy b hb]
+    exact ⟨fun h => key _ (h ▸ hw), fun h => key _ (h ▸ hk), fun h => key _ (h ▸ hyw), fun h => key _ (h ▸ hq)⟩
+
+/-- The same for `{timeformat {0} layout zone}`: every answer of a history is the layout applied to the
+local wall clock, offset and abbreviation the table has at THAT instant. -/
+theorem timeformat_history_independent (z : ZoneTab) (layout : Bytes) :
+    (∀ xs, (timeFormatM z layout).run () xs = xs.map (timeFormatStageIn z layout))
+    ∧ (∀ pre pre' a, ((timeFormatM z layout).run () (pre ++ [a])).getLast? = ((timeFormatM z layout).run () (pre' ++ [a])).getLast?)
+    ∧ (∀ (xs : List Bytes) (i : Nat) (u : Int), xs[i]? = some (itoa u) → inInt64 u = true → yearInRange u (z.lookup u).off = true →
+        ((timeFormatM z layout).run () xs)[i]? = some (Out.val (formatLayout layout (timeVIn z u)))) := by
+  refine ⟨fun xs => run_stateless _ _ _, fun pre pre' a => ?_, fun xs i u hi hu hy => ?_⟩
+  · simp only [timeFormatM, run_last]
+  · simp only [timeFormatM, run_getElem?, hi, Option.map_some, timeFormatStageIn_num z layout u hu hy]
+
+/-- When may an answer be reused?  Between two instants with the SAME offset in force, `v` lies in the
+86400-second window starting at what `u`'s wall clock shows as midnight (`u − (h·3600+m·60+s)`) iff
+both fall on the same local day, and then every attribute agrees.  (The hypothesis is what a
+"same day" shortcut needs; the counterexample below drops it.) -/
+theorem zone_day_window (z : ZoneTab) (u v : Int) (ho : (z.lookup v).off = (z.lookup u).off) :
+    ((dayWindowStart z u ≤ v ∧ v < dayWindowStart z u + 86400) ↔ z.wall v / 86400 = z.wall u / 86400)
+    ∧ (z.wall v / 86400 = z.wall u / 86400 → ∀ name, timeAttrIn z name v = timeAttrIn z name u) := by
+  constructor
+  · have := dayWindow_iff u v (z.lookup u).off
+    simp only [dayWindowStart, ZoneTab.wall, ho]
+    simpa only [localDays] using this
+  · intro h name
+    exact timeAttr_of_localDays name u v _ _ (by simpa only [ZoneTab.wall, localDays] using h)
+
+/-- America/New_York in 2016 as a table (EST, EDT from 13 March 07:00 UTC, EST from 6 November 06:00 UTC). -/
+def newYork2016 : ZoneTab := ⟨(-18000, asc "EST"), [(1457852400, -14400, asc "EDT"), (1478412000, -18000, asc "EST")]⟩
+
+/-- Across a change of offset the window is NOT the local day.  Sunday 13 March 2016 has 23 hours in
+New York: counted from an instant before the gap (01:00 EST) the 86400 seconds from "midnight" reach
+01:00 EDT of Monday, so Monday 14 March 00:05 EDT lies inside the window of a Sunday instant although
+it is another local day – weekday 1 not 0, ISO week 11 not 10, 2016-11 not 2016-10.  (Counted from
+an instant after the gap the window starts at 23:00 EST of Saturday instead.)  A stage that reused
+an answer by this window would depend on its history; `timeattr_history_independent` says the
+stage does not, and the op `zh` runs exactly this history on the real code (corpus r4c). -/
+theorem zone_day_window_counterexample :
+    sortedTrans newYork2016.trans = true
+    ∧ dayWindowStart newYork2016 1457848800 ≤ 1457928300 ∧ 1457928300 < dayWindowStart newYork2016 1457848800 + 86400
+    ∧ newYork2016.wall 1457928300 / 86400 = newYork2016.wall 1457848800 / 86400 + 1
+    ∧ timeAttrIn newYork2016 (asc "weekday") 1457848800 = some (asc "0")
+    ∧ timeAttrIn newYork2016 (asc "weekday") 1457928300 = some (asc "1")
+    ∧ timeAttrIn newYork2016 (asc "week") 1457848800 = some (asc "10")
+    ∧ timeAttrIn newYork2016 (asc "week") 1457928300 = some (asc "11")
+    ∧ timeAttrIn newYork2016 (asc "yearweek") 1457928300 = some (asc "2016-11")
+    ∧ (timeAttrM newYork2016 (asc "weekday")).run () [asc "1457848800", asc "1457928300"] = [Out.val (asc "0"), Out.val (asc "1")]
+    ∧ dayWindowStart newYork2016 1457870000 = 1457845200 - 3600 := by
   decide +kernel
 
 /-! ## Durations -/
